@@ -38,7 +38,7 @@ def tape_value(t: int, mode: int) -> float:
     return 0.0                          # mode 4: all zero -> everything is refined (uniform refinement)
 
 
-def make_tape_err(tape, mode):
+def make_tape_err(tape, mode, box=None):
     from sparseSpACE.ErrorCalculator import ErrorCalculator
 
     class TapeErr(ErrorCalculator):
@@ -91,6 +91,42 @@ def make_tape_err(tape, mode):
                     d = self.tape[(st_ // 4) % L] % 2          # runs of two steps in the same dimension
                 x = obj.a + (obj.b - obj.a) * ([0.1, 0.6, 0.9, 0.3][self.tape[(st_ + 1) % L] % 4] if self.tape[0] % 3 else 0.1)
                 return 1.0 if (obj.this_dim == d and obj.start <= x < obj.end) else 0.0
+            if self.mode == 10:
+                # two refinement fronts of different depth: the object containing target A gets a benefit that decays with
+                # every generation of the A chain (1, q, q^2, ...), the object containing target B a constant one, all others
+                # 0.  A is refined alone until its benefit has fallen to within the margin of B's; from then on a deep
+                # (coarsening 0, lmax-raising) and a shallow object are refined in the same step, the older one first
+                L = len(self.tape)
+
+                def fr(i):
+                    return (self.tape[i % L] % 64 + 0.37) / 64.0
+                q = [0.85, 0.7, 0.95, 0.5][self.tape[0] % 4]
+                cB = [0.6, 0.4, 0.8, 0.25][self.tape[(1 if L > 1 else 0)] % 4]
+                if hasattr(obj, "this_dim"):
+                    d = obj.this_dim
+                    inA = obj.start <= obj.a + (obj.b - obj.a) * fr(2 + d) < obj.end
+                    inB = obj.start <= obj.a + (obj.b - obj.a) * fr(5 + d) < obj.end
+                    key = d
+                else:
+                    nd = len(obj.start)
+                    A, B = box if box is not None else (obj.a, obj.b)
+                    inA = all(obj.start[d] <= A[d] + (B[d] - A[d]) * fr(2 + d) < obj.end[d] for d in range(nd))
+                    inB = all(obj.start[d] <= A[d] + (B[d] - A[d]) * fr(5 + d) < obj.end[d] for d in range(nd))
+                    key = 0
+                gen = getattr(self, "gen", None)
+                if gen is None:
+                    gen = self.gen = {}
+                if inA:
+                    n = gen.get(key, 0)
+                    gen[key] = n + 1
+                    val = q ** n
+                elif inB:
+                    val = cB
+                else:
+                    val = 0.0
+                # extend-split divides the error by the number of evaluations of the area to get the benefit
+                ev = getattr(obj, "evaluations", 0)
+                return float(val * (ev if (not hasattr(obj, "this_dim") and ev) else 1.0))
             if self.mode in (5, 6):
                 # refinement directed at one target point (strongly graded trees, rebalancing rotations);
                 # mode 6 adds low background noise from the tape
@@ -173,7 +209,7 @@ def scale_class(case):
 
 
 def st_tape(draw, maxlen=48):
-    mode = draw(st.sampled_from([0, 0, 0, 1, 1, 2, 2, 3, 4, 5, 5, 6, 7, 7, 7, 8, 8, 8, 9, 9, 9]))
+    mode = draw(st.sampled_from([0, 0, 0, 1, 1, 2, 2, 3, 4, 5, 5, 6, 7, 7, 7, 8, 8, 8, 9, 9, 9, 10, 10, 10]))
     tape = draw(st.lists(st.integers(0, 63), min_size=1, max_size=maxlen))
     return tape, mode
 
@@ -373,7 +409,7 @@ def error_operator(case):
             return ErrorCalculatorExtendSplit()
         from sparseSpACE.ErrorCalculator import ErrorCalculatorSingleDimVolumeGuided
         return ErrorCalculatorSingleDimVolumeGuided()
-    return make_tape_err(case["tape"], case["mode"])
+    return make_tape_err(case["tape"], case["mode"], box=(case["a"], case["b"]))
 
 
 class StopHistory(Exception):
